@@ -241,7 +241,7 @@ def read_lammps(f: Any, ndim: int) -> SingleSnapshot:
         names = item[2:]
         positions = np.zeros((particle_number, ndim))
         particle_type = np.zeros(particle_number, dtype=int)
-        if 'x' in names:
+        if 'xu' in names or 'x' in names:
             for i in range(particle_number):
                 item = f.readline().split()
                 atom_index = int(item[0]) - 1
